@@ -42,6 +42,186 @@ fn fail(ty: &str, op: &str, a: u64, b: u64, got: String, want: String) {
     );
 }
 
+/// The checks are instantiated per CONCRETE address type with method-call syntax (so that an
+/// inherent method shadowing the trait's would be the one checked, exactly as user code would
+/// reach it) and, separately, generically through the `Address` trait.
+macro_rules! concrete_checks {
+    ($m:ident, $A:ty) => {
+        mod $m {
+            #![allow(clippy::all)]
+            use super::*;
+pub fn check_pair(ty: &str, a: u64, b: u64) {
+    let x = <$A>::new(a);
+    let sum = a as u128 + b as u128;
+    let diff = a as i128 - b as i128;
+    let fits_sum = sum <= u64::MAX as u128;
+    let fits_diff = diff >= 0;
+    let key = |op: &str, outcome: &str| {
+        out::key(&format!("{}|{}|{}|{}|{}", ty, op, class(a), class(b), outcome), true);
+    };
+
+    // raw value round trip
+    if x.raw_value() != a {
+        fail(ty, "new/raw_value", a, b, format!("{}", x.raw_value()), format!("{}", a));
+    }
+    // checked_add
+    let got = x.checked_add(b).map(|r| r.raw_value());
+    let want = if fits_sum { Some(sum as u64) } else { None };
+    if got != want {
+        fail(ty, "checked_add", a, b, format!("{:?}", got), format!("{:?}", want));
+    }
+    key("checked_add", if fits_sum { "some" } else { "none" });
+    // overflowing_add
+    let (r, o) = x.overflowing_add(b);
+    if r.raw_value() != sum as u64 || o != !fits_sum {
+        fail(ty, "overflowing_add", a, b, format!("({},{})", r.raw_value(), o), format!("({},{})", sum as u64, !fits_sum));
+    }
+    key("overflowing_add", if fits_sum { "fit" } else { "wrap" });
+    // checked_sub
+    let got = x.checked_sub(b).map(|r| r.raw_value());
+    let want = if fits_diff { Some(diff as u64) } else { None };
+    if got != want {
+        fail(ty, "checked_sub", a, b, format!("{:?}", got), format!("{:?}", want));
+    }
+    key("checked_sub", if fits_diff { "some" } else { "none" });
+    // overflowing_sub
+    let (r, o) = x.overflowing_sub(b);
+    if r.raw_value() != diff as u64 || o != !fits_diff {
+        fail(ty, "overflowing_sub", a, b, format!("({},{})", r.raw_value(), o), format!("({},{})", diff as u64, !fits_diff));
+    }
+    key("overflowing_sub", if fits_diff { "fit" } else { "wrap" });
+    // checked_offset_from
+    let got = x.checked_offset_from(<$A>::new(b));
+    let want = if fits_diff { Some(diff as u64) } else { None };
+    if got != want {
+        fail(ty, "checked_offset_from", a, b, format!("{:?}", got), format!("{:?}", want));
+    }
+    key("checked_offset_from", if fits_diff { "some" } else { "none" });
+    // unchecked forms where the exact result fits (otherwise documented to follow Rust's overflow behaviour)
+    if fits_sum {
+        let r = x.unchecked_add(b).raw_value();
+        if r != sum as u64 {
+            fail(ty, "unchecked_add", a, b, format!("{}", r), format!("{}", sum));
+        }
+    }
+    if fits_diff {
+        let r = x.unchecked_sub(b).raw_value();
+        if r != diff as u64 {
+            fail(ty, "unchecked_sub", a, b, format!("{}", r), format!("{}", diff));
+        }
+        let r = x.unchecked_offset_from(<$A>::new(b));
+        if r != diff as u64 {
+            fail(ty, "unchecked_offset_from", a, b, format!("{}", r), format!("{}", diff));
+        }
+    }
+    // bit operations on the raw value
+    if x.mask(b) != a & b {
+        fail(ty, "mask", a, b, format!("{}", x.mask(b)), format!("{}", a & b));
+    }
+    if (x & b).raw_value() != a & b {
+        fail(ty, "bitand", a, b, format!("{}", (x & b).raw_value()), format!("{}", a & b));
+    }
+    if (x | b).raw_value() != a | b {
+        fail(ty, "bitor", a, b, format!("{}", (x | b).raw_value()), format!("{}", a | b));
+    }
+    key("bitops", "raw");
+    // ordering / equality follow the raw values
+    let y = <$A>::new(b);
+    if x.cmp(&y) != a.cmp(&b) || x.partial_cmp(&y) != Some(a.cmp(&b)) {
+        fail(ty, "cmp", a, b, format!("{:?}", x.cmp(&y)), format!("{:?}", a.cmp(&b)));
+    }
+    if (x == y) != (a == b) || (x != y) != (a != b) || (x < y) != (a < b) || (x <= y) != (a <= b) || (x > y) != (a > b) || (x >= y) != (a >= b) {
+        fail(ty, "relops", a, b, "mismatch".into(), "raw comparison".into());
+    }
+    key("cmp", match a.cmp(&b) {
+        std::cmp::Ordering::Less => "lt",
+        std::cmp::Ordering::Equal => "eq",
+        std::cmp::Ordering::Greater => "gt",
+    });
+    out::eval(1);
+}
+
+pub fn check_align(ty: &str, a: u64) {
+    let x = <$A>::new(a);
+    for k in 0..64u32 {
+        let p = 1u64 << k;
+        let exact = (a as u128).div_ceil(p as u128) * p as u128;
+        let want = if exact <= u64::MAX as u128 { Some(exact as u64) } else { None };
+        let got = x.checked_align_up(p).map(|r| r.raw_value());
+        if got != want {
+            fail(ty, "checked_align_up", a, p, format!("{:?}", got), format!("{:?}", want));
+        }
+        out::key(&format!("{}|align|{}|k{}|{}", ty, class(a), k, if want.is_some() { "some" } else { "none" }), true);
+        // exactness properties (independent formulation): multiple of p, >= a, < a + p
+        if let Some(g) = got {
+            if g % p != 0 || g < a || (g as u128) >= a as u128 + p as u128 {
+                fail(ty, "checked_align_up/least-multiple", a, p, format!("{}", g), "least multiple of p not below a".into());
+            }
+        }
+        if let Some(w) = want {
+            // unchecked form is pinned only where a + (p-1) does not overflow
+            if (a as u128 + (p - 1) as u128) <= u64::MAX as u128 {
+                let r = x.unchecked_align_up(p).raw_value();
+                if r != w {
+                    fail(ty, "unchecked_align_up", a, p, format!("{}", r), format!("{}", w));
+                }
+            }
+        }
+        out::eval(1);
+    }
+    // documented assertion: non power of two must not silently produce a value
+    for bad in [0u64, 3, 6, 12, u64::MAX] {
+        let r = guarded(|| x.checked_align_up(bad));
+        if let Ok(v) = r {
+            out::viol(
+                &format!("C19/{}/checked_align_up/non-power-of-two-accepted", ty),
+                jobj! {"a" => a, "p" => bad, "got" => J::dbg(&v)},
+            );
+        }
+    }
+}
+
+pub fn run_ty(ty: &str, args: &Args) {
+    let ops = operands();
+    if <$A>::default().raw_value() != 0 {
+        fail(ty, "default", 0, 0, format!("{}", <$A>::default().raw_value()), "0".into());
+    }
+    for &a in &ops {
+        for &b in &ops {
+            check_pair(ty, a, b);
+        }
+        check_align(ty, a);
+    }
+    out::count("cross_product_pairs", (ops.len() * ops.len()) as i128);
+    let n = args.u64("random", 1_000_000);
+    let mut r = Rng::new(args.seed(), ty, 0);
+    for i in 0..n {
+        let (a, b) = match r.below(4) {
+            0 => (r.next(), r.next()),
+            1 => {
+                let a = r.next();
+                (a, a.wrapping_add(r.below(5)).wrapping_sub(2))
+            }
+            2 => {
+                let a = r.next();
+                (a, (!a).wrapping_add(r.below(5)).wrapping_sub(2))
+            }
+            _ => (r.next() >> r.below(64), r.next() >> r.below(64)),
+        };
+        check_pair(ty, a, b);
+        if i % 64 == 0 {
+            check_align(ty, a);
+        }
+    }
+    out::count("random_pairs", n as i128);
+}
+
+        }
+    };
+}
+concrete_checks!(concrete_guest, GuestAddress);
+concrete_checks!(concrete_region, MemoryRegionAddress);
+
 fn check_pair<A: Address<V = u64> + std::fmt::Debug>(ty: &str, a: u64, b: u64) {
     let x = A::new(a);
     let sum = a as u128 + b as u128;
@@ -210,8 +390,10 @@ fn run_ty<A: Address<V = u64> + std::fmt::Debug>(ty: &str, args: &Args) {
 
 pub fn run(args: &Args) {
     out::set_quiet_cases(true);
-    run_ty::<GuestAddress>("GuestAddress", args);
-    run_ty::<MemoryRegionAddress>("MemoryRegionAddress", args);
+    concrete_guest::run_ty("GuestAddress", args);
+    concrete_region::run_ty("MemoryRegionAddress", args);
+    run_ty::<GuestAddress>("GuestAddress(via trait)", args);
+    run_ty::<MemoryRegionAddress>("MemoryRegionAddress(via trait)", args);
     let ops = operands();
     out::sample(jobj! {"type" => "GuestAddress", "a" => ops[ops.len() - 1], "b" => 1u64,
         "checked_add" => J::dbg(&GuestAddress(ops[ops.len() - 1]).checked_add(1)),
